@@ -36,7 +36,7 @@ theorem poolOf_length_le (t : RawTriangle) : (poolOf t).length ≤ 2 * (allKeys 
   omega
 
 theorem rawGet_self (d : RawDict) (h : nodupKeys (dictKeys d) = true) :
-    ∀ e ∈ d, Spec.rawGet? d e.1 = some e.2 := by
+    ∀ e ∈ d, Spec.C05.rawGet? d e.1 = some e.2 := by
   induction d with
   | nil => intro e he; cases he
   | cons a r ih =>
@@ -45,28 +45,28 @@ theorem rawGet_self (d : RawDict) (h : nodupKeys (dictKeys d) = true) :
     intro e he
     simp only [List.mem_cons] at he
     rcases he with rfl | he
-    · simp [Spec.rawGet?]
+    · simp [Spec.C05.rawGet?]
     · have hne : (a.1 == e.1) = false := by
         simp only [beq_eq_false_iff_ne, ne_eq]
         intro hc
         exact h.1 ⟨e, he, hc.symm⟩
       have := ih (by simpa [dictKeys] using h.2) e he
-      simpa [Spec.rawGet?, List.find?, hne] using this
+      simpa [Spec.C05.rawGet?, List.find?, hne] using this
 
-theorem dictEqv_self (d : RawDict) (h : dictOk d = true) : Spec.dictEqv d d = true := by
-  simp only [Spec.dictEqv, beq_self_eq_true, Bool.true_and, List.all_eq_true, beq_iff_eq]
+theorem dictEqv_self (d : RawDict) (h : dictOk d = true) : Spec.C05.dictEqv d d = true := by
+  simp only [Spec.C05.dictEqv, beq_self_eq_true, Bool.true_and, List.all_eq_true, beq_iff_eq]
   exact rawGet_self d (dictOk_nodup h)
 
-theorem cellEqv_self (c : RawCell) (h : cellOk c = true) : Spec.cellEqv c c = true := by
+theorem cellEqv_self (c : RawCell) (h : cellOk c = true) : Spec.C05.cellEqv c c = true := by
   obtain ⟨h1, h2, h3⟩ := cellOk_parts h
-  simp [Spec.cellEqv, Spec.metaEqv, dictEqv_self _ h1, dictEqv_self _ h2, dictEqv_self _ h3]
+  simp [Spec.C05.cellEqv, Spec.C05.metaEqv, dictEqv_self _ h1, dictEqv_self _ h2, dictEqv_self _ h3]
 
-theorem roundTrip_self (t : RawTriangle) (h : ∀ c ∈ t, cellOk c = true) : Spec.roundTrip t t = true := by
-  unfold Spec.roundTrip
+theorem roundTrip_self (t : RawTriangle) (h : ∀ c ∈ t, cellOk c = true) : Spec.C05.roundTrip t t = true := by
+  unfold Spec.C05.roundTrip
   induction t with
   | nil => rfl
   | cons c cs ih =>
-    simp only [Spec.cellsEqv, Bool.and_eq_true]
+    simp only [Spec.C05.cellsEqv, Bool.and_eq_true]
     exact ⟨cellEqv_self c (h c (by simp)), ih (fun c' h' => h c' (by simp [h']))⟩
 /-! ### the pool is sorted -/
 
